@@ -73,10 +73,10 @@ def observe(graph, starts, kw, stopk, container=None):
     args = dict(kw)
     if cb is not None:
         args["stop_condition"] = cb
-    # guards against an implementation that no longer terminates (or whose layers explode): zoo orbits have at most 2*10^5 states and a few
-    # hundred layers, so on a correct implementation these limits never bind and the result equals the unguarded run the model describes
-    args.setdefault("max_diameter", 20000)
-    args.setdefault("max_layer_size_to_explore", 3 * 10**6)
+    # guards against an implementation that no longer terminates (or whose layers explode): zoo orbits have at most 2*10^5 states and at most a
+    # thousand layers, so on a correct implementation these limits never bind and the result equals the unguarded run the model describes
+    args.setdefault("max_diameter", 4000)
+    args.setdefault("max_layer_size_to_explore", 3 * 10**5)
     try:
         res = graph.bfs(start_states=G.in_container(container, [list(s) for s in starts]) if starts is not None else None, **args)
     except Exception as ex:  # pylint: disable=broad-except
